@@ -304,7 +304,20 @@ def _flat_items(nm: Names, sw: list[int]) -> dict[str, Any]:
         items.insert(pos, Default(body(1) + [Ctl("break")]))
         return Switch(sw[0], items)
 
+    def switch_empty_case(first_empty: bool) -> Any:
+        """a case that only breaks, in front of the default block (first) or behind it (last)"""
+        sw[0] += 1
+        v = 10 * sw[0]
+        items: list[Any] = [Default(body(1) + [Ctl("break")]), Case([v + 2], body(2) + [Ctl("break")])]
+        if first_empty:
+            items.insert(0, Case([v], [Ctl("break")]))
+        else:
+            items.append(Case([v + 4], [Ctl("break")]))
+        return Switch(sw[0], items)
+
     return {
+        "switch-empty-case-first-then-default": lambda: switch_empty_case(True),
+        "switch-default-then-empty-case-last": lambda: switch_empty_case(False),
         "switch-default-first": lambda: switch_default_at(0, 2),
         "switch-default-middle": lambda: switch_default_at(1, 2),
         "switch1-default-first": lambda: switch_default_at(0, 1),
@@ -337,7 +350,7 @@ def _flat_items(nm: Names, sw: list[int]) -> dict[str, Any]:
     }
 
 
-FLAT_KINDS = ["switch-default-first", "switch-default-middle", "switch1-default-first", "if2-elseif-elseif3", "if3-elseif2-elseif3", "if-elseif3", "plain", "with", "if", "if2", "ifnot", "if-or", "if-else", "ifnot-else", "if-elseif", "if-elseif-else", "if-elseifnot-else", "if-or-elseif-or-else",
+FLAT_KINDS = ["switch-empty-case-first-then-default", "switch-default-then-empty-case-last", "switch-default-first", "switch-default-middle", "switch1-default-first", "if2-elseif-elseif3", "if3-elseif2-elseif3", "if-elseif3", "plain", "with", "if", "if2", "ifnot", "if-or", "if-else", "ifnot-else", "if-elseif", "if-elseif-else", "if-elseifnot-else", "if-or-elseif-or-else",
               "if-elseif-elseif-else", "switch1", "switch1-default", "switch2", "switch2-default", "switch3-default", "switch-grouped", "switch-grouped-default"]
 
 
